@@ -58,7 +58,9 @@ def locateR (s : R) (resetInFlight : Bool) : R :=
 def pumpR (s : R) (outcome : Option Bool) : R :=
   if !s.pump then s else
   let s1 := if pumpLocateStates.contains s.st && !s.descriptors then locateR s false else s
-  if pumpConnectStates.contains s1.st && !s1.facade then connectR s1 outcome else s1
+  let s2 := if pumpConnectStates.contains s1.st && !s1.facade then connectR s1 outcome else s1
+  -- the retry rule (third `if` of the same turn): after a pause, a manager still parked in one of these states is reset
+  if pumpRetryStates.contains s2.st then resetR s2 else s2
 
 def step (s : R) : In → R
   | .pumpTurn true => pumpR s (some true)
@@ -105,6 +107,7 @@ def Stuck (s : R) : Bool :=
   !connected s &&
   (!s.pump ||
    !(pumpLocateStates.contains s.st && !s.descriptors) && !(pumpConnectStates.contains s.st && !s.facade) &&
+   !pumpRetryStates.contains s.st &&
    !(s.spaAlive && pingResetStates.contains s.st))
 
 /-- what a healthy network does next: the ping of an existing spa is answered, then the pump gets two turns -/
